@@ -304,6 +304,33 @@ theorem scalar_root_is_equilibrium_and_unique (stoich : List Int) (c0 : List α)
   · exact heq
   · exact absurd (residual_strictly_decreasing_on_bracket stoich c0 lo up K h hne hpos r1 r2 0 0 hlo1 hgt hup2 h1 h2) (lt_irrefl 0)
 
+/-- **residual with an activity product** (`equilibrium_residual(..., activity_product=γ)`): the residual is `K − Q(c)·γ(c)` at
+    `c = c0 + ν·rc`; it vanishes exactly when the activity-corrected quotient equals `K`. -/
+theorem residual_with_activity_zero_iff (act : List α → Except Err α) (rc : α) (c0 : List α) (stoich : List Int) (K v : α)
+    (h : equilibriumResidualWith act rc c0 stoich K = .ok v) :
+    ∃ g, act (extentState c0 stoich rc) = .ok g ∧ v = K - quotient (extentState c0 stoich rc) stoich * g ∧
+      (v = 0 ↔ quotient (extentState c0 stoich rc) stoich * g = K) := by
+  obtain ⟨_, g, hg, hv⟩ := equilibriumResidualWith_ok act rc c0 stoich K v h
+  exact ⟨g, hg, hv, by rw [hv, sub_eq_zero]; exact eq_comm⟩
+
+/-- **residual of several reactions** (2-d `stoich`: species × reactions, one reaction coordinate each): entry `r` of
+    `equilibrium_residual(rc, c0, stoich, K)` is `K_r − ∏ᵢ cᵢ^stoich[i][r]` at `c = c0 + stoich·rc`; the vector vanishes exactly when
+    every reaction satisfies `Q_r = K_r`. -/
+theorem residual_multi_zero_iff (rc c0 : List α) (stoich : List (List Int)) (K vs : List α)
+    (h : equilibriumResidualMulti rc c0 stoich K = .ok vs) :
+    vs.length = rc.length ∧ K.length = rc.length ∧
+    ((∀ v ∈ vs, v = 0) ↔ ∀ r (hr : r < K.length),
+      quotient (extentStateMulti c0 stoich rc) (stoichColumn stoich r) = K[r]) := by
+  obtain ⟨_, hK, hlen, hv⟩ := equilibriumResidualMulti_ok rc c0 stoich K vs h
+  refine ⟨hlen, hK, ?_, ?_⟩
+  · intro hz r hr
+    have := hv r (by omega) hr (by omega)
+    rw [hz _ (List.getElem_mem _)] at this
+    exact (sub_eq_zero.mp this.symm).symm
+  · intro hq v hvm
+    obtain ⟨r, hr, rfl⟩ := List.getElem_of_mem hvm
+    rw [hv r (by omega) (by omega) hr, hq r (by omega), sub_self]
+
 /-- what `solve_equilibrium` returns, `c0 + rc·ν`, carries the element totals and the charge of `c0` whenever the reaction is
     balanced (`b·ν = 0` for the balance row `b`) — for every `rc`, converged or not. -/
 theorem extent_preserves_totals (rc : α) (b c0 : List α) (stoich : List Int) (hl : c0.length = stoich.length)
@@ -435,6 +462,17 @@ example : fwCond (α := ℚ) fwRtolDefault [0, 0, 1] [⟨[(2, 1)], [(0, 1), (1, 
 /-- a 2 × 2 grid given in the order (substance 2, substance 0): axis 0 is substance 0, axis 1 substance 2 -/
 example : perSubstanceVaried (α := ℚ) 3 [2, 3, 5] [(2, [5, 7]), (0, [1, 4])] =
     .ok ([0, 2], [2, 2], [[1, 3, 5], [1, 3, 7], [4, 3, 5], [4, 3, 7]]) := by decide +kernel
+
+/-- two coupled reactions A ⇌ B + C, B ⇌ D in extent space: residual vector, and zero at an exactly constructed equilibrium -/
+example : equilibriumResidualMulti (α := ℚ) [1 / 4, 1 / 8] [1, 1 / 4, 1 / 2, 1] [[-1, 0], [1, -1], [1, 0], [0, 1]] [1, 2]
+    = .ok [5 / 8, -1] := by decide +kernel
+
+example : equilibriumResidualMulti (α := ℚ) [1 / 4, 1 / 8] [1, 1 / 4, 1 / 2, 1] [[-1, 0], [1, -1], [1, 0], [0, 1]] [3 / 8, 3]
+    = .ok [0, 0] := by decide +kernel
+
+/-- activity product γ(c) = [B]: residual K − Q·γ -/
+example : equilibriumResidualWith (α := ℚ) (fun c => eqQuotient c [0, 1, 0]) (1 / 4) [1, 1 / 4, 1 / 2] [-1, 1, 1] (1 / 2)
+    = .ok (1 / 4) := by decide +kernel
 
 /-- water / H⁺ / OH⁻: bounds (H: 2·1 + 1/2 = 5/2, O: 1) and a sane / an insane vector -/
 example : upperConcBounds (α := ℚ) [[(1, 2), (8, 1)], [(0, 1), (1, 1)], [(0, -1), (1, 1), (8, 1)]] [1, 1 / 2, 0]
